@@ -185,6 +185,16 @@ func (fe *FnExec) preCallInv(fr *frame, st *State, site string, full []Val, type
 }
 
 func (fe *FnExec) reestablishArgs(st *State, full []Val, types_ []types.Type) {
+	// a wrapper handed to the callee reads through the object it wraps: that object's methods ran too
+	for _, a := range append([]Val(nil), full...) {
+		seen := 0
+		for w, ok := fe.wraps[termOf(a)]; ok && seen < 4; w, ok = fe.wraps[termOf(w)] {
+			full = append(full, w)
+			types_ = append(append([]types.Type(nil), types_...), make([]types.Type, len(full)-len(types_)-1)...)
+			types_ = append(types_, anyReaderType)
+			seen++
+		}
+	}
 	for i, a := range full {
 		var t types.Type
 		if i < len(types_) {
@@ -307,3 +317,6 @@ func (fe *FnExec) havocHeapObjCond(st *State, prefix string, base Term, t types.
 		}
 	}
 }
+
+// anyReaderType: static type used for objects reached through a wrapper (an interface every reader / writer wrapper implements)
+var anyReaderType types.Type = types.NewInterfaceType(nil, nil).Complete()
